@@ -27,9 +27,9 @@ SPEC = {
         {'pkg': 'commit/merkleroot/rmn', 'pkgname': 'rmn', 'src': 'harness/commit/merkleroot/rmn/c06_test.go', 'test': 'TestVerif_C06_sweep',
          'sinks': {'C06_sweep': 'c06_judge'}, 'n': {'quick': 1, 'thorough': 6}},
         {'pkg': 'commit', 'src': 'harness/commit/c13_test.go', 'test': 'TestVerif_C13_commit', 'fakes': True, 'extra_libs': ['vmutate'],
-         'sinks': {'C13_commit': 'sweep_judge'}, 'n': {'quick': 400, 'thorough': 40000}},
+         'sinks': {'C13_commit': 'sweep_judge'}, 'shard': 6000, 'n': {'quick': 400, 'thorough': 40000}},
         {'pkg': 'execute', 'src': 'harness/execute/c13_test.go', 'test': 'TestVerif_C13_exec', 'fakes': True, 'extra_libs': ['vmutate'],
-         'sinks': {'C13_exec': 'sweep_judge'}, 'n': {'quick': 400, 'thorough': 40000}},
+         'sinks': {'C13_exec': 'sweep_judge'}, 'shard': 6000, 'n': {'quick': 400, 'thorough': 40000}},
         {'pkg': 'commit', 'src': ['harness/commit/c11_test.go', 'harness/commit/c13_test.go', 'harness/commit/c13r_test.go'], 'test': 'TestVerif_C13_commit_reader',
          'fakes': True, 'extra_libs': ['vmutate'], 'sinks': {'C13_reader_commit': 'sweep_judge'}, 'n': {'quick': 2, 'thorough': 12}},
         {'pkg': 'execute', 'src': ['harness/execute/c11_test.go', 'harness/execute/c13_test.go', 'harness/execute/c13r_test.go'], 'test': 'TestVerif_C13_exec_reader',
